@@ -369,9 +369,10 @@ pub fn make_inputs(cfg: &Cfg, rng: &mut Rng, tier: Tier, budget: usize, sentence
         out = keep;
     }
     // W5: long sentences
-    if tier == Tier::Thorough && an.productive[cfg.start] {
-        for t in [300usize, 1000, 3000, 5000] {
-            if rng.chance(0.5) {
+    if an.productive[cfg.start] {
+        let lens: &[usize] = tier.pick(&[300usize, 900], &[300usize, 1000, 3000, 5000]);
+        for t in lens.iter().copied() {
+            if rng.chance(tier.pick(0.2, 0.5)) {
                 if let Some(s) = gen::random_sentence(cfg, &an, rng, t) {
                     if s.len() <= 6000 && !s.is_empty() {
                         let mut broken = s.clone();
